@@ -2,6 +2,8 @@ package checks
 
 import (
 	"fmt"
+	"io"
+	"log"
 	"strings"
 	"time"
 
@@ -50,6 +52,7 @@ func c16run(ctx *vc.Ctx) {
 			{"update", "c", "member-update"}, {"update", "c", "member-update"}, {"fail", "c", "member-failed"}, {"fail", "b", "member-failed"},
 		},
 	}
+	c16backpressure(ctx, bound)
 	for _, sn := range []string{"flap", "rejoin"} {
 		for _, snap := range []bool{false, true} {
 			for _, coal := range []bool{false, true} {
@@ -169,4 +172,76 @@ func c16explore(ctx *vc.Ctx, sname string, script []c16step, snap, coal bool, bo
 		return strings.Join(out, " "), "", ""
 	}
 	ctx.Explore(vc.ExploreOpts{Name: name, Bound: bound, MaxSteps: 100000}, body, check)
+}
+
+// c16backpressure drives the real Snapshotter stage alone with a 1-slot downstream
+// channel and a consumer that takes events one at a time: a full downstream
+// channel may make the stage drop events (allowed), never reorder them.
+func c16backpressure(ctx *vc.Ctx, bound int) {
+	kinds := []serf.EventType{serf.EventMemberJoin, serf.EventMemberFailed, serf.EventMemberJoin, serf.EventMemberLeave, serf.EventMemberJoin, serf.EventMemberFailed}
+	var got []int
+	body := func() {
+		vsched.Branching(false)
+		got = nil
+		vos.Install(vos.NewFS(nil))
+		defer vos.Install(nil)
+		clock := &serf.LamportClock{}
+		clock.Increment()
+		out := make(chan serf.Event, 1)
+		sh := make(chan struct{})
+		in, snap, err := serf.NewSnapshotter("/snap/bp", 128*1024, false, log.New(io.Discard, "", 0), clock, out, sh)
+		if err != nil {
+			panic(err)
+		}
+		vsched.Quiesce()
+		vsched.Branching(true)
+		p := vsched.Spawn("producer", func() {
+			for i, k := range kinds {
+				in <- serf.MemberEvent{Type: k, Members: []serf.Member{{Name: "b", Port: uint16(i)}}}
+				vsched.Yield("produced")
+			}
+		})
+		c := vsched.Spawn("consumer", func() {
+			for n := 0; n < 40; n++ {
+				select {
+				case e := <-out:
+					got = append(got, int(e.(serf.MemberEvent).Members[0].Port))
+				default:
+				}
+				vsched.Yield("consumer-poll")
+			}
+		})
+		p.Join()
+		c.Join()
+		vsched.Branching(false)
+		vsched.Quiesce()
+		for {
+			select {
+			case e := <-out:
+				got = append(got, int(e.(serf.MemberEvent).Members[0].Port))
+				vsched.Quiesce()
+				continue
+			default:
+			}
+			break
+		}
+		close(sh)
+		vsched.Quiesce()
+		snap.Wait()
+	}
+	check := func(x *vsched.Exec) (string, string, string) {
+		if len(x.Panics) > 0 {
+			return "panic", "panic " + x.Panics[0].Frame, x.Panics[0].Value + "\n" + x.Panics[0].Stack
+		}
+		if !x.RootDone {
+			return "stuck", "deadlock", fmt.Sprintf("blocked %+v", x.Blocked)
+		}
+		for i := 1; i < len(got); i++ {
+			if got[i] <= got[i-1] {
+				return "order", "snapshot stage reordered member events under back-pressure", fmt.Sprintf("transitions 0..%d of one member were pushed in order through the snapshot stage with a 1-slot downstream channel; the consumer received them as %v", len(kinds)-1, got)
+			}
+		}
+		return fmt.Sprint(got), "", ""
+	}
+	ctx.Explore(vc.ExploreOpts{Name: "snapshot-stage/backpressure", Bound: bound, MaxSteps: 100000}, body, check)
 }
